@@ -767,7 +767,9 @@ class Run:
             "violations": len(violations),
         }
         os.makedirs(os.path.join(VERIF, "evidence"), exist_ok=True)
-        if not getattr(self, "partial", False):   # --only / --replay runs never overwrite the evidence
+        # --only / --replay runs never overwrite the evidence; nor does a run against a scratch tree (ALDOR_REPO set, as the
+        # seed evaluation does): evidence describes /repo itself
+        if not getattr(self, "partial", False) and os.path.realpath(REPO) == "/repo":
             with open(os.path.join(VERIF, "evidence", self.pid + ".json"), "w") as fh:
                 json.dump(ev, fh, indent=1)
 
